@@ -384,6 +384,45 @@ def action_and_edge_ranges(ctx):
         )
 
 
+def feature_boxes(ctx):
+    """R18.b (features): the Box declared for a feature matrix is unbounded.
+    Feature observers are configurable and several built-in ones report
+    signed quantities (earliest start times are relative to the current
+    time, remaining durations of ongoing operations go below zero), so any
+    finite bound excludes observations that do occur."""
+    chk, repo = ctx.chk, ctx.repo
+    single = repo.find_class("SingleJobShopGraphEnv")
+    gos = _obs_space_builder(ctx, single)
+    scope = [gos] + [m for m in single.methods.values() if m is not gos]
+    n = 0
+    for f in scope:
+        for c in _space_calls(f, "Box"):
+            n += 1
+            kw = {k.arg: k.value for k in c.keywords}
+            lo = kw.get("low", c.args[0] if c.args else None)
+            hi = kw.get("high", c.args[1] if len(c.args) > 1 else None)
+
+            def inf(e, sign):
+                if e is None:
+                    return False
+                t = ast.unparse(_module_const(ctx, f, e)).replace(" ", "")
+                want = ("-np.inf", "-numpy.inf", "-math.inf", "-inf", "float('-inf')", "-float('inf')") if sign < 0 else (
+                    "np.inf", "numpy.inf", "math.inf", "inf", "float('inf')")
+                return t in want
+
+            if inf(lo, -1) and inf(hi, 1):
+                chk.ok("R18.b", f.qualname, f.loc(c), "feature Box is (-inf, inf)")
+            else:
+                chk.violation(
+                    "R18.b", f, c,
+                    f"a feature matrix is declared as Box(low={ast.unparse(lo) if lo is not None else '?'}, "
+                    f"high={ast.unparse(hi) if hi is not None else '?'}): feature values are not bounded (start times relative "
+                    "to the current time and remaining durations become negative), so observations fall outside the space",
+                    loc=f.loc(c),
+                )
+    chk.analysed["feature_box_declarations"] = n
+
+
 # --------------------------------------------------------------------- R18.c
 def step_flags(ctx):
     chk, repo = ctx.chk, ctx.repo
@@ -769,6 +808,7 @@ def run(ctx):
     chk.rule("R18.e", "padding fill values: True for removed_nodes, -1 otherwise; data in the leading corner")
     sibling_constructor_agreement(ctx, "R18.a")
     action_and_edge_ranges(ctx)
+    feature_boxes(ctx)
     step_flags(ctx)
     key_agreement(ctx)
     padding(ctx)
